@@ -20,6 +20,7 @@
 (*  [ev="nowait",t, res, owner, waiting]          acquire_nowait()         *)
 (*  [ev="rel",   t, res, owner, waiting]          release()                *)
 (*  [ev="creq",  t]              a cancellation of t was requested         *)
+(*  [ev="cdone", t]              t's scope absorbed it; t carries on       *)
 (*  [ev="quiescent", owner, waiting]  loop idle: nothing can happen        *)
 (* res: "ok" | "cancelled" | "error" | "wouldblock"; owner: task or 0.     *)
 (*                                                                         *)
@@ -91,6 +92,7 @@ LockApply(p, e) ==
          LET cl == [OwnerCanRelease |-> p.holder # e.t]
          IN [p |-> p, bad |-> Names(cl) \cup Names(ObsClauses(p, e))]
     [] e.ev = "creq" -> [p |-> [p EXCEPT !.creq = @ \cup {e.t}], bad |-> {}]
+    [] e.ev = "cdone" -> [p |-> [p EXCEPT !.creq = @ \ {e.t}], bad |-> {}]   \* t's scope absorbed the request
     [] e.ev = "quiescent" ->
          LET cl == [NoFreeLockWithWaiters |-> p.inprog # <<>> => p.holder # 0,
                     UnlockedWhenAllReleased |->
